@@ -28,10 +28,18 @@ _MECARD_ESCAPE = {
 }
 
 
+# Line breaks within a value are written as "\\n" (RFC 2426 -- 2.4.2), a raw
+# CR / LF would terminate the content line
+_VCARD_LINEBREAK_ESCAPE = {
+    ord('\n'): '\\n',
+    ord('\r'): None,
+}
+
 _VCARD_ESCAPE = {
     ord(','): '\\,',
     ord(';'): '\\;',
 }
+_VCARD_ESCAPE.update(_VCARD_LINEBREAK_ESCAPE)
 
 
 def _escape_mecard(s):
@@ -301,7 +309,7 @@ def make_vcard_data(name, displayname, email=None, phone=None, fax=None,
 
     escape = _escape_vcard
     data = ['BEGIN:VCARD', 'VERSION:3.0',
-            f'N:{name}',
+            f'N:{str(name).translate(_VCARD_LINEBREAK_ESCAPE)}',
             f'FN:{escape(displayname)}']
     if org:
         data.append(f'ORG:{escape(org)}')
